@@ -7,6 +7,7 @@ Given resolved expression trees (see ex.py) and the Lean names of the real varia
   * an ideal-membership certificate `P = sum q_i g_i` found by sympy (untrusted) that Lean's
     `linear_combination` re-checks.
 """
+import re
 import sympy as sp
 from .ex import tree_size
 
@@ -78,6 +79,9 @@ class Calc:
 
     def _var(self, i):
         name = self.names[i]
+        m = re.fullmatch(r'\(?\s*(-?\d+)\s*(:\s*ℝ)?\s*\)?', name)
+        if m:   # an environment entry that is a numeral (e.g. evaluation at t = 0)
+            return sp.Integer(int(m.group(1)))
         if name not in self.varsym:
             # variable names are Lean identifiers (possibly unicode); sympy symbol must be plain
             self.varsym[name] = sp.Symbol(f'v{len(self.varsym)}_')
